@@ -117,7 +117,7 @@ class G:
             return "ghba %d %s" % (tok, rng.choice(["10.11.12.%d" % rng.randint(1, hi), "fd00::%x" % rng.randint(1, 5 * hi)]))
         if kind == "gni":
             return "gni %d %s %d %s" % (tok, rng.choice(["10.11.12.%d" % rng.randint(1, hi), "fd00::%x" % rng.randint(1, 5 * hi)]),
-                                         rng.choice([0, 53, 80]), rng.choice(["0x0", "0x8", "0x4", "0x3", "0x1a"]))
+                                         rng.choice([0, 53, 80]), rng.choice(["0x0", "0x0", "0x8", "0x4", "0x4", "0x3", "0x1a", "0x300", "0x304", "0x104", "0x200", "0x308"]))
         raise ValueError(kind)
 
     def script_ops(self, depth, allow):
